@@ -92,9 +92,13 @@ Definition step (s : fs) (o : fsop) : fs :=
       | None => step_create s n
       end
   | Write h b =>
-      match handle (fs_open s) h with
-      | Some i => upd_file s i (fun f => mkFile (f_durable f) (f_volatile f ++ [(f_pos f, b)]) (f_pos f + length b))
-      | None => s
+      match b with
+      | [] => s   (* write(fd, "", 0): POSIX - no effect on a regular file *)
+      | _ =>
+          match handle (fs_open s) h with
+          | Some i => upd_file s i (fun f => mkFile (f_durable f) (f_volatile f ++ [(f_pos f, b)]) (f_pos f + length b))
+          | None => s
+          end
       end
   | Fsync h =>
       match handle (fs_open s) h with
